@@ -165,6 +165,13 @@ def run_fault_case(scn: dict, remote: List[str], fault: Optional[dict], watchdog
     asyncio.set_event_loop(loop)
 
     def on_alarm(signum, frame):
+        try:
+            # where every task is waiting: the witness of a hang
+            out["hang_tasks"] = [f"{t.get_name()}: " + " <- ".join(
+                f"{fr.f_code.co_filename.split('/')[-1]}:{fr.f_lineno}:{fr.f_code.co_name}" for fr in t.get_stack(limit=4))
+                for t in asyncio.all_tasks(loop) if not t.done()][:12]
+        except Exception:  # noqa: BLE001
+            pass
         raise Watchdog(f"no result after {watchdog_s}s")
 
     old = signal.signal(signal.SIGALRM, on_alarm)
@@ -269,11 +276,20 @@ def judge(scn: dict, remote: List[str], fault: dict, out: dict) -> List[dict]:
         return [{"kind": "_not_fired"}]
     desc = {"fault": fault, "remote": remote}
     if o["kind"] == "hang":
-        v.append(dict(desc, kind="run_hangs_after_fault", msg=o.get("msg")))
+        wt = out.get("hang_tasks") or []
+        n_handlers = sum(1 for t in wt if "_handle_remote_requests" in t)
+        n_readers = sum(1 for t in wt if "_receive_forever" in t)
+        v.append(dict(desc, kind="run_hangs_after_fault", msg=o.get("msg"), waiting_tasks=wt,
+                      # a RemoteProxy still waiting for requests of a channel whose reader task is gone
+                      request_handlers_whose_channel_reader_is_gone=max(0, n_handlers - n_readers)))
         return v
     if o["kind"] == "returned":
         # allowed only as "logged remote error"
-        if not any(l["level"] == "ERROR" for l in out["logs"]):
+        served = sum(1 for e in out["remote_events"].get(fault["sid"], []) if e.get("op") == "ret")
+        all_served = fault.get("how") == "exit_idle" and (
+            fault.get("after_its_last_request") or served >= fault.get("requests_in_fault_free_run", 1 << 30))
+        # (a process that dies only after it has answered every request of the run is not needed any more)
+        if not any(l["level"] == "ERROR" for l in out["logs"]) and not all_served:
             v.append(dict(desc, kind="run_returned_normally_without_error"))
     fin = finalize_counts(out)
     for s in scn["sims"]:
@@ -492,6 +508,91 @@ def run_generated(job: dict, res: dict, viol) -> None:
                         viol(vv, {"generated": {"scn": scn_f, "sched": rs, "fault": fault}})
 
 
+PLAIN_EXCS = ["RuntimeError", "StopIteration", "StopAsyncIteration", "LookupError", "OSError",
+              "EOFError", "CancelledError", "TimeoutError", "ArithmeticError"]
+
+
+def run_plain_inprocess(C: Counter, viol, only=None):
+    """Ordinary in-process simulators (plain methods, no generators): F fails at request r with exception class X while
+    connected to O (F -> O or O -> F).  run() must raise, O is finalized exactly once, the loop is closed, nothing pending."""
+    import asyncio
+    import mosaik
+    import warnings
+    from .. import stubs
+    from ..build import setup_logging
+    setup_logging()
+
+    class SnapLoop(asyncio.SelectorEventLoop):
+        pending_at_close = None
+
+        def close(self):
+            if not self.is_closed() and self.pending_at_close is None:
+                try:
+                    self.pending_at_close = [repr(t)[:200] for t in asyncio.all_tasks(self) if not t.done()]
+                except Exception:  # noqa: BLE001
+                    self.pending_at_close = []
+            super().close()
+
+    for direction in ("F->O", "O->F"):
+        for typ in ("hybrid", "time-based"):
+            for exc in PLAIN_EXCS:
+                for r in range(0, 7):
+                    case = {"engine": "plain_inprocess", "direction": direction, "type": typ, "exception": exc, "request": r}
+                    if only and only != case:
+                        continue
+                    stubs.PLAIN_LOG.clear()
+                    loop = SnapLoop()
+                    outcome = None
+                    with warnings.catch_warnings():
+                        warnings.simplefilter("ignore")
+                        world = mosaik.World({"P": {"python": "vlab.stubs:PlainSim"}}, skip_greetings=True, asyncio_loop=loop)
+                        try:
+                            ff = world.start("P", sim_id="F", fail_at=r, exc=exc, typ=typ)
+                            fo = world.start("P", sim_id="O", typ=typ)
+                            ef, eo = ff.M(), fo.M()
+                            if direction == "F->O":
+                                world.connect(ef, eo, ("o", "i"))
+                            else:
+                                world.connect(eo, ef, ("o", "i"))
+                            world.run(until=3)
+                            outcome = "returned"
+                        except BaseException as e:  # noqa: BLE001
+                            outcome = f"raised {type(e).__name__}"
+                            if isinstance(e, (KeyboardInterrupt, SystemExit)):
+                                raise
+                        finally:
+                            try:
+                                if not loop.is_closed():
+                                    C["plain_loop_left_open"] += 1
+                                    world.shutdown()
+                            except BaseException:  # noqa: BLE001
+                                pass
+                    log = list(stubs.PLAIN_LOG)
+                    faulted = any(x[1] == "fault" for x in log)
+                    C["plain_inprocess_cases"] += 1
+                    if not faulted:
+                        C["plain_inprocess_fault_not_reached"] += 1
+                        if outcome != "returned":
+                            viol(dict(case, kind="fault_free_run_failed", outcome=outcome), {"plain": case})
+                        continue
+                    C["plain_inprocess_faults_injected"] += 1
+                    C["plain_inprocess_exc_" + exc] += 1
+                    fin_o = sum(1 for x in log if x[0] == "O" and x[1] == "finalize")
+                    i_fault = next(i for i, x in enumerate(log) if x[1] == "fault")
+                    later_f = [x for x in log[i_fault + 1:] if x[0] == "F" and x[1] in ("step", "get_data", "setup_done")]
+                    if outcome == "returned":
+                        viol(dict(case, kind="fault_swallowed_run_returned_normally", log_tail=log[-6:]), {"plain": case})
+                    elif fin_o != 1:
+                        viol(dict(case, kind="other_simulator_not_finalized_exactly_once", finalize_calls=fin_o, outcome=outcome),
+                             {"plain": case})
+                    elif later_f:
+                        viol(dict(case, kind="failed_simulator_got_further_requests", requests=later_f[:3]), {"plain": case})
+                    elif loop.pending_at_close:
+                        viol(dict(case, kind="pending_tasks_at_loop_close", tasks=loop.pending_at_close[:3]), {"plain": case})
+                    elif not loop.is_closed():
+                        viol(dict(case, kind="loop_not_closed", outcome=outcome), {"plain": case})
+
+
 def run_slice(job: dict) -> dict:
     from .. import findings
     KF = findings.load()
@@ -515,7 +616,11 @@ def run_slice(job: dict) -> dict:
             stored[1] += 1
             res["violations"].append({"v": vv, "replay": replay})
 
+    if w == 1 % W:
+        run_plain_inprocess(C, viol)
+        res["evaluations"] += C["plain_inprocess_cases"]
     cases = []
+    Rk: Dict[int, Dict[str, int]] = {}
     for k in job["catalogue"]:
         scn, remote = catalogue(k, job["until"])
         # request counts are deterministic for the catalogue: compute once per worker (fault-free run)
@@ -531,9 +636,10 @@ def run_slice(job: dict) -> dict:
             for vv in clean:
                 viol(vv, {"catalogue": k, "fault": None, "until": job["until"]})
         R = count_requests(base)
+        Rk[k] = R
         for s in scn["sims"]:
             sid = s["sid"]
-            kinds = ["exit", "raise", "close"] if sid in remote else \
+            kinds = ["exit", "raise", "close", "exit_idle"] if sid in remote else \
                 ["raise", "raise_TypeError", "raise_ValueError", "raise_KeyError", "raise_ConnectionError",
                  "raise_CancelledError"]
             for r in range(R.get(sid, 0)):
@@ -547,15 +653,21 @@ def run_slice(job: dict) -> dict:
             continue
         scn, remote = catalogue(k, job["until"])
         fault = {"sid": sid, "r": r, "how": how}
-        out = run_fault_case(scn, remote, fault)
+        if how == "exit_idle":
+            # the process answers request r and dies a moment later, while idle (or, if mosaik is quick, during the
+            # next request); after its LAST request of the fault-free run nobody needs it any more
+            fault["after_its_last_request"] = (r == Rk[k].get(sid, 0) - 1)
+            fault["requests_in_fault_free_run"] = Rk[k].get(sid, 0)
+        out = run_fault_case(scn, remote, fault, watchdog_s=15.0 if how == "exit_idle" else 40.0)
         res["evaluations"] += 1
         C["fault_cases"] += 1
         vs = judge(scn, remote, fault, out)
         if vs and vs[0]["kind"] == "_not_fired":
             C["fault_not_reached"] += 1
             continue
-        if vs and vs[0]["kind"] == "run_hangs_after_fault":
-            # a hang is only a verdict if it reproduces alone (loaded machine)
+        if vs and vs[0]["kind"] == "run_hangs_after_fault" and findings.match(PROP, vs[0], KF) is None:
+            # a hang is only a verdict if it reproduces alone (loaded machine) -- unless its witness (where every task
+            # waits) already shows the listed mechanism: that one depends on how the OS reports the lost connection
             again = [run_fault_case(scn, remote, fault)["outcome"]["kind"] == "hang" for _ in range(2)]
             res["evaluations"] += 2
             if not all(again):
@@ -608,6 +720,10 @@ def judge_clean(scn, remote, out) -> List[dict]:
 
 def replay(rep: dict) -> List[dict]:
     r = rep["replay"]
+    if "plain" in r:
+        out: List[dict] = []
+        run_plain_inprocess(Counter(), lambda vv, _r: out.append(vv), only=r["plain"])
+        return out
     if "generated" in r:
         g = r["generated"]
         tr = run_generated_case(g["scn"], dict(g["sched"]))
@@ -629,6 +745,8 @@ def replay(rep: dict) -> List[dict]:
 def decide(m, tier):
     c = m["counters"]
     reasons = []
+    if c.get("plain_inprocess_faults_injected", 0) < 100:
+        reasons.append("plain in-process class: fewer than 100 faults injected")
     for k in ("kind_exit", "kind_raise", "kind_close", "kind_local_raise"):
         if c.get(k, 0) < 10:
             reasons.append(f"{k} < 10")
